@@ -234,6 +234,84 @@ def _act(root: Any, idx: dict, op: dict, classes: set) -> None:
         raise OPS.NotApplicable(str(what))
 
 
+def pingpong_ops(g: Any, root: Any) -> list:
+    """Attribution calls concentrated on one comment: the models directly above / below it and the lists around it, alternating claim and
+    unclaim (sequences like claim-trailing, unclaim, claim-leading-of-the-next, unclaim, claim-trailing move placeholders around the comment)."""
+    from vf.props import c14
+    lines = c14.Lines(root)
+    comments = [i for i, t in enumerate(lines.order.tokens) if type(t).__name__ == 'BlockComment']
+    if not comments:
+        return []
+    ci = comments[g.n(0, len(comments) - 1)]
+    first, last = lines.tok_line[ci], lines.tok_end_line[ci]
+    idx = OPS.index_models(root)
+    addr = {id(m): (cn, i) for cn, ms in idx.items() for i, m in enumerate(ms)}
+    menu = []
+    for m in c14.commentable(root):
+        sp = lines.span_of(m)
+        if sp is None or id(m) not in addr:
+            continue
+        cn, mi = addr[id(m)]
+        if sp[1] == first - 1:
+            menu += [{'cls': cn, 'mi': mi, 'op': 'claim_trailing_comment'}, {'cls': cn, 'mi': mi, 'op': 'unclaim_trailing_comment'}]
+        if sp[0] == last + 1:
+            menu += [{'cls': cn, 'mi': mi, 'op': 'claim_leading_comment'}, {'cls': cn, 'mi': mi, 'op': 'unclaim_leading_comment'}]
+    for cn, ms in idx.items():
+        for mi, m in enumerate(ms):
+            sp = lines.span_of(m)
+            if sp is None or not (sp[0] <= first <= sp[1] + 1 or cn == 'File'):
+                continue
+            for li, p in enumerate([p for p in S.props_of(m) if p.kind == 'clist']):
+                menu += [{'cls': cn, 'mi': mi, 'op': 'claim_interleaving_comments', 'li': li}, {'cls': cn, 'mi': mi, 'op': 'unclaim_interleaving_comments', 'li': li}]
+    if not menu:
+        return []
+    # a state-aware walk: when the comment has an owner, release it through that owner; when it has none, let a random candidate claim it
+    target = lines.order.tokens[ci]
+    ops = []
+    for _ in range(g.n(4, 14)):
+        holders, _x = c14.ownership(root)
+        hs = holders.get(id(target), [])
+        if hs and g.p(0.85):
+            kind, desc = hs[0]
+            want = {'leading': 'unclaim_leading_comment', 'trailing': 'unclaim_trailing_comment', 'item': 'unclaim_interleaving_comments'}[kind]
+            cands = [m for m in menu if m['op'] == want and m['cls'] == desc[0]] or [m for m in menu if m['op'] == want]
+        elif not hs and g.p(0.85):
+            cands = [m for m in menu if m['op'].startswith('claim')]
+        else:
+            cands = menu
+        if not cands:
+            cands = menu
+        op = {'f': 'read', 'what': 'claim', 'ignore': g.p(0.8), **cands[g.n(0, len(cands) - 1)]}
+        ops.append(op)
+        try:
+            _act(root, OPS.index_models(root), op, set())
+        except Exception:  # noqa: BLE001
+            pass
+    return ops
+
+
+def _build_pingpong(tier: str):
+    cfg = L.Cfg(max_dirs=3, comments=0.7, blank=0.15, hazard_text=0.02, exotic=0.02)
+
+    def build(rnd: Any) -> dict:
+        g = L.G(rnd, cfg)
+        groups = []
+        for _ in range(g.n(1, 3)):
+            groups.append(g.directive(g.pick(['transaction', 'transaction', 'open', 'note', 'option', 'close']))['lines'])
+            if g.p(0.4):
+                groups.append(g.trivia() or [[]])
+        chunks = L.merge_comments([c for c in (g.join_lines(x) for x in groups) if c])
+        claim = g.p(0.5)
+        case = {'dirs': chunks, 'ops': [], 'claim': claim}
+        try:
+            root = common.parse_file(L.text_of(chunks), claim)
+            case['ops'] = pingpong_ops(g, root)
+        except Exception:  # noqa: BLE001
+            pass
+        return case
+    return build
+
+
 def _build(tier: str):
     cfg = L.Cfg(max_dirs=5 if tier == 'quick' else 10, comments=0.5, blank=0.3)
 
@@ -262,4 +340,5 @@ def _build(tier: str):
 
 
 def jobs(tier: str) -> list[Job]:
-    return [Job('programs', 'hyp', lambda: _build(tier), 2500 if tier == 'quick' else 60000)]
+    return [Job('programs', 'hyp', lambda: _build(tier), 2500 if tier == 'quick' else 60000),
+            Job('claim-pingpong', 'hyp', lambda: _build_pingpong(tier), 4000 if tier == 'quick' else 150000)]
